@@ -381,6 +381,32 @@ def register(cat):
 
     bad("T.ttt_dims", "T", gen_ttt, lambda eng, ops, st: ops[0].ttt(ops[1], np.array(st["sd"]), np.array(st["od"])), lambda ops, st: shp(ops[0])[st["sd"][0]] != shp(ops[1])[st["od"][0]])
 
+    def gen_ttt_count(c, r):
+        # dimension lists of different lengths; the contracted modes are mostly singletons (sizes that broadcast)
+        g = c.g
+        na, nb = g.randint(2, 3), g.randint(2, 3)
+        la, lb = g.choice([(1, 2), (2, 1), (1, 0), (0, 1), (2, 0), (1, 3), (3, 1)])
+        if la > na or lb > nb:
+            return None
+        a = [g.randint(2, 3) for _ in range(na)]
+        b = [g.randint(2, 3) for _ in range(nb)]
+        sd = sorted(g.sample(range(na), la))
+        od = sorted(g.sample(range(nb), lb))
+        single = g.random() < 0.8
+        for d in sd:
+            a[d] = 1 if single else g.randint(1, 2)
+        for d in od:
+            b[d] = 1 if single else g.randint(1, 2)
+        return {"operands": [c.fresh(np.asfortranarray(rand_array(g, tuple(a)))), c.fresh(np.asfortranarray(rand_array(g, tuple(b))))], "sd": sd, "od": od}
+
+    bad(
+        "T.ttt_dims_count",
+        None,
+        gen_ttt_count,
+        lambda eng, ops, st: ttb.tensor(ops[0]).ttt(ttb.tensor(ops[1]), np.array(st["sd"], dtype=int), np.array(st["od"], dtype=int)),
+        lambda ops, st: len(st["sd"]) != len(st["od"]),
+    )
+
     def gen_to_tenmat(c, r):
         n = c.obj(r).ndims
         if n < 2:
@@ -496,16 +522,21 @@ def register(cat):
 
     def gen_ktensor_ctor(c, r):
         shape = c.g.choice(c.heap_families())
-        kind = c.g.choice(["columns", "weights"])
+        kind = c.g.choice(["columns", "weights", "ndim"])
         fs = [np.asfortranarray(rand_array(c.g, (s, 2))) for s in shape]
         w = np.array([1.0, 2.0])
-        if kind == "columns":
+        if kind == "ndim":
+            j = c.g.randrange(len(fs))
+            fs[j] = np.asfortranarray(rand_array(c.g, (shape[j], 2, c.g.randint(1, 3))))
+        elif kind == "columns":
             fs[-1] = np.asfortranarray(rand_array(c.g, (shape[-1], 3)))
         else:
             w = np.array([1.0, 2.0, 3.0])
         return {"operands": [c.fresh(f) for f in fs] + [c.fresh(w)]}
 
     def bad_ktensor(ops, st):
+        if any(f.ndim != 2 for f in ops[:-1]):
+            return True
         cols = {f.shape[1] for f in ops[:-1]}
         return len(cols) > 1 or ops[-1].shape[0] not in cols
 
@@ -581,11 +612,19 @@ def register(cat):
     def gen_tenmat_ctor(c, r):
         shape = list(c.g.choice(c.heap_families()))
         n = len(shape)
-        kind = c.g.choice(["size", "partition"])
+        kind = c.g.choice(["size", "partition", "rows", "rows"])
         rd, cd = [0], list(range(1, n))
         rows, cols = shape[0], int(np.prod(shape[1:]))
         if kind == "size":
             data = rand_array(c.g, (rows, cols + 1))
+        elif kind == "rows":
+            # the right number of elements in a matrix whose row count is not the product of the row modes
+            total = rows * cols
+            cands = [q for q in range(1, total + 1) if total % q == 0 and q != rows]
+            if not cands:
+                return None
+            q = c.g.choice(cands)
+            data = rand_array(c.g, (q, total // q))
         else:
             data = rand_array(c.g, (rows, cols))
             cd = list(range(0, n - 1)) if n > 2 else [0]
@@ -594,14 +633,24 @@ def register(cat):
     def bad_tenmat(ops, st):
         sh = st["tshape"]
         part = sorted(st["rdims"] + st["cdims"]) == list(range(len(sh)))
-        return (not part) or ops[0].size != int(np.prod(sh))
+        if (not part) or ops[0].size != int(np.prod(sh)):
+            return True
+        rows = int(np.prod([sh[d] for d in st["rdims"]]))
+        return tuple(ops[0].shape) != (rows, int(np.prod(sh)) // rows)
 
-    bad("tenmat_ctor_inconsistent", None, gen_tenmat_ctor, lambda eng, ops, st: ttb.tenmat(ops[0], np.array(st["rdims"]), np.array(st["cdims"]), tuple(st["tshape"])), bad_tenmat)
+    def known_tenmat(ops, st):
+        # recorded known finding: a matrix with the right number of elements but the wrong number of rows
+        sh = st["tshape"]
+        if sorted(st["rdims"] + st["cdims"]) != list(range(len(sh))) or ops[0].size != int(np.prod(sh)) or ops[0].ndim != 2:
+            return None
+        return "tenmat_ctor_row_count"
+
+    bad("tenmat_ctor_inconsistent", None, gen_tenmat_ctor, lambda eng, ops, st: ttb.tenmat(ops[0], np.array(st["rdims"]), np.array(st["cdims"]), tuple(st["tshape"])), bad_tenmat, known=known_tenmat)
 
     def gen_sptenmat_ctor(c, r):
         shape = list(c.g.choice(c.heap_families()))
         n = len(shape)
-        kind = c.g.choice(["partition", "beyond", "count"])
+        kind = c.g.choice(["partition", "beyond", "count", "at_end", "at_end"])
         rd, cd = [0], list(range(1, n))
         rows, cols = shape[0], int(np.prod(shape[1:]))
         subs = np.array([[0, 0], [rows - 1, cols - 1]], dtype=int)
@@ -610,6 +659,12 @@ def register(cat):
             cd = cd[:-1] if len(cd) > 1 else [0]
         elif kind == "beyond":
             subs[1, 0] = rows + 1
+        elif kind == "at_end":
+            # the first index that no longer exists (row count / column count itself)
+            if c.g.random() < 0.5:
+                subs[1, 0] = rows
+            else:
+                subs[1, 1] = cols
         else:
             vals = vals[:1]
         return {"operands": [c.fresh(subs), c.fresh(vals)], "rdims": rd, "cdims": cd, "tshape": shape}
@@ -624,6 +679,88 @@ def register(cat):
 
     bad("sptenmat_ctor_inconsistent", None, gen_sptenmat_ctor, lambda eng, ops, st: ttb.sptenmat(ops[0], ops[1], np.array(st["rdims"]), np.array(st["cdims"]), tuple(st["tshape"])), bad_sptenmat)
 
+    # ------------------------------------------------- ttsv / mttkrps / scale / reshape / reconstruct
+    def gen_ttsv(c, r):
+        # modes of unequal size whose element count still equals (first size) ** order, and plainly unequal ones
+        g = c.g
+        sh = list(g.choice([(4, 2, 8), (4, 8, 2), (2, 4, 1), (3, 9, 1), (2, 1, 4), (4, 2), (2, 8), (3, 1, 9), (2, 3), (3, 2, 3), (2, 2, 3)]))
+        vlen = g.choice([sh[0], sh[0], sh[-1]])
+        return {"operands": [c.fresh(np.asfortranarray(rand_array(g, tuple(sh)))), c.fresh(rand_array(g, (vlen,)))], "skip": g.choice([None, None, 0, 1])}
+
+    def run_ttsv(eng, ops, st):
+        T = ttb.tensor(ops[0])
+        if st["skip"] is None:
+            return T.ttsv(ops[1])
+        return T.ttsv(ops[1], skip_dim=st["skip"])
+
+    bad("T.ttsv_unequal_modes", None, gen_ttsv, run_ttsv, lambda ops, st: len(set(ops[0].shape)) > 1)
+
+    def gen_mttkrps(c, r):
+        x = c.obj(r)
+        sh = shp(x)
+        if len(sh) < 2:
+            return None
+        rk = c.g.randint(1, 2)
+        fs = [np.asfortranarray(rand_array(c.g, (s, rk))) for s in sh]
+        kind = c.g.choice(["rows", "swap", "columns", "length"])
+        if kind == "rows":
+            j = c.g.randrange(len(sh))
+            fs[j] = np.asfortranarray(rand_array(c.g, (sh[j] + c.g.choice([-1, 1]) if sh[j] > 1 else sh[j] + 1, rk)))
+        elif kind == "swap":
+            pairs = [(i, j) for i in range(len(sh)) for j in range(i + 1, len(sh)) if sh[i] != sh[j]]
+            if not pairs:
+                return None
+            i, j = c.g.choice(pairs)
+            fs[i], fs[j] = fs[j], fs[i]
+        elif kind == "columns":
+            j = c.g.randrange(len(sh))
+            fs[j] = np.asfortranarray(rand_array(c.g, (sh[j], rk + 1)))
+        else:
+            fs = fs[:-1]
+        return {"operands": [r] + [c.fresh(f) for f in fs]}
+
+    def bad_mttkrps(ops, st):
+        sh = shp(ops[0])
+        fs = ops[1:]
+        return len(fs) != len(sh) or any(f.shape[0] != s for f, s in zip(fs, sh)) or len({f.shape[1] for f in fs}) > 1
+
+    bad("T.mttkrps_factors", "T", gen_mttkrps, lambda eng, ops, st: ops[0].mttkrps(list(ops[1:])), bad_mttkrps)
+
+    def gen_s_scale_matrix(c, r):
+        sh = shp(c.obj(r))
+        d = c.g.randrange(len(sh))
+        return {"operands": [r, c.fresh(np.asfortranarray(rand_array(c.g, (sh[d], c.g.randint(2, 3)))))], "dim": d}
+
+    bad("S.scale_factor_is_a_matrix", "S", gen_s_scale_matrix, lambda eng, ops, st: ops[0].scale(ops[1], np.array([st["dim"]])), lambda ops, st: ops[1].ndim == 2 and ops[1].shape[1] > 1)
+
+    def gen_s_reshape_modes(c, r):
+        sh = shp(c.obj(r))
+        kind = c.g.choice(["repeated", "out_of_range"])
+        d = c.g.randrange(len(sh))
+        if kind == "repeated":
+            return {"operands": [r], "old": [d, d], "shape": [sh[d] * sh[d]]}
+        return {"operands": [r], "old": [len(sh) + c.g.randint(0, 1)], "shape": [sh[d]]}
+
+    bad("S.reshape_old_modes_invalid", "S", gen_s_reshape_modes, lambda eng, ops, st: ops[0].reshape(tuple(st["shape"]), old_modes=np.array(st["old"], dtype=int)), lambda ops, st: len(set(st["old"])) != len(st["old"]) or max(st["old"]) >= ops[0].ndims)
+
+    def gen_reconstruct(c, r):
+        x = c.obj(r)
+        sh = shp(x)
+        if len(sh) < 2:
+            return None
+        kind = c.g.choice(["repeated", "out_of_range"])
+        d = c.g.randrange(len(sh))
+        modes = [d, d] if kind == "repeated" else [d, len(sh) + c.g.randint(0, 1)]
+        return {"operands": [r], "modes": modes}
+
+    bad(
+        "TT.reconstruct_modes_invalid",
+        "TT",
+        gen_reconstruct,
+        lambda eng, ops, st: ops[0].reconstruct([np.array([0]) for _ in st["modes"]], modes=list(st["modes"])),
+        lambda ops, st: len(set(st["modes"])) != len(st["modes"]) or max(st["modes"]) >= ops[0].ndims,
+    )
+
     # ---------------------------------------------------------------------- tenmat ops
     def gen_tm_pair(c, r):
         m = c.obj(r)
@@ -631,6 +768,36 @@ def register(cat):
         return None if o is None else {"operands": [r, o], "which": c.g.choice(["add", "sub"])}
 
     bad("TM.add_shape", "TM", gen_tm_pair, lambda eng, ops, st: (ops[0] + ops[1]) if st["which"] == "add" else (ops[0] - ops[1]), lambda ops, st: tuple(ops[0].shape) != tuple(ops[1].shape))
+
+    def gen_tm_unfoldings(c, r):
+        # two matricizations of one and the same tensor (equal tensor shapes) whose matrices differ in shape; the
+        # all-rows against the all-columns form, and tensors with singleton modes, give shapes that broadcast
+        g = c.g
+        n = g.randint(2, 3)
+        sh = [g.randint(1, 3) for _ in range(n)]
+        if g.random() < 0.4:
+            sh[g.randrange(n)] = 1
+        modes = list(range(n))
+        if g.random() < 0.5:
+            rd1, rd2 = modes, []
+        else:
+            rd1 = sorted(g.sample(modes, g.randint(0, n)))
+            rd2 = sorted(g.sample(modes, g.randint(0, n)))
+        return {"operands": [c.fresh(np.asfortranarray(rand_array(g, tuple(sh))))], "rd1": rd1, "rd2": rd2, "which": g.choice(["add", "sub", "rsub", "radd"])}
+
+    def tm_of(arr, rd):
+        T = ttb.tensor(arr)
+        cd = [d for d in range(T.ndims) if d not in rd]
+        return T.to_tenmat(rdims=np.array(rd, dtype=int), cdims=np.array(cd, dtype=int))
+
+    def run_tm_unfoldings(eng, ops, st):
+        a, b = tm_of(ops[0], st["rd1"]), tm_of(ops[0], st["rd2"])
+        return {"add": lambda: a + b, "sub": lambda: a - b, "rsub": lambda: a.__rsub__(b), "radd": lambda: a.__radd__(b)}[st["which"]]()
+
+    def bad_tm_unfoldings(ops, st):
+        return tuple(tm_of(ops[0], st["rd1"]).shape) != tuple(tm_of(ops[0], st["rd2"]).shape)
+
+    bad("TM.add_other_unfolding", None, gen_tm_unfoldings, run_tm_unfoldings, bad_tm_unfoldings)
 
     def gen_tm_mul(c, r):
         m = c.obj(r)
@@ -749,6 +916,10 @@ def register(cat):
         x = ops[0]
         n = x.ndims
         k = st["kind"]
+        if k == "optdims_out_of_range":
+            return ttb.cp_als(x, 1, optdims=[0, n + 3], printitn=0, maxiters=1)
+        if k == "optdims_negative":
+            return ttb.cp_als(x, 1, optdims=[0, -(n + 1)], printitn=0, maxiters=1)
         if k == "rank":
             return ttb.cp_als(x, 0, printitn=0, maxiters=1)
         if k == "rank_negative":
@@ -768,7 +939,7 @@ def register(cat):
             return shp(ops[0]) != shp(ops[1])
         return ops[0].ndims >= 2
 
-    bad("cp_als_options", ("T", "S"), lambda c, r: gen_alg(c, r, ["rank", "rank_negative", "dimorder", "dimorder_short", "init_string", "guess_shape", "guess_rank"]), run_cp_als, bad_alg)
+    bad("cp_als_options", ("T", "S"), lambda c, r: gen_alg(c, r, ["rank", "rank_negative", "dimorder", "dimorder_short", "init_string", "guess_shape", "guess_rank", "optdims_out_of_range", "optdims_negative"]), run_cp_als, bad_alg)
 
     def run_cp_apr(eng, ops, st):
         x = ops[0]
@@ -816,8 +987,13 @@ def register(cat):
         x = c.obj(r)
         if x.ndims < 2:
             return None
-        kind = c.g.choice(["init_length", "init_shape", "dimorder", "init_string", "init_shape_any_mode", "init_shape_any_mode"])
+        kind = c.g.choice(["init_length", "init_shape", "dimorder", "init_string", "init_shape_any_mode", "init_shape_any_mode", "ranks_length"])
         st: Dict[str, Any] = {"operands": [r], "kind": kind, "ranks": [1] * x.ndims}
+        if kind == "ranks_length":
+            st["ranks"] = [1] * (x.ndims + c.g.choice([-1, 1, 2]))
+            if len(st["ranks"]) <= 1:
+                return None  # a single rank is the documented scalar form
+            return st
         if kind == "init_shape_any_mode":
             # a sweep order of the caller's choice, and a factor of the wrong shape in a mode that is not swept first
             # (the factor of the mode swept first is documented as unused)
@@ -850,6 +1026,8 @@ def register(cat):
             return ttb.tucker_als(x, st["ranks"], init=list(ops[1:]), dimorder=list(st["order"]), printitn=0, maxiters=1)
         if k == "dimorder":
             return ttb.tucker_als(x, st["ranks"], dimorder=[0] * n, printitn=0, maxiters=1)
+        if k == "ranks_length":
+            return ttb.tucker_als(x, list(st["ranks"]), printitn=0, maxiters=1)
         return ttb.tucker_als(x, st["ranks"], init="ones", printitn=0, maxiters=1)
 
     def bad_tucker(ops, st):
@@ -861,6 +1039,8 @@ def register(cat):
         if st["kind"] == "init_shape_any_mode":
             j = st["j"]
             return len(ops) - 1 == x.ndims and st["order"][0] != j and tuple(ops[1 + j].shape) != (shp(x)[j], 1)
+        if st["kind"] == "ranks_length":
+            return len(st["ranks"]) not in (1, x.ndims)
         return x.ndims >= 2
 
     bad("tucker_als_options", "T", gen_tucker, run_tucker, bad_tucker)
